@@ -191,6 +191,8 @@ class World:
         self.pending_phys = 0
         self.sim_error = None
         self.game_events = []
+        self.kicked = []        # [src, dst]: pulsed, the ball has not left its seat yet
+        self.ready_checked = {}
 
     # -- recording ----------------------------------------------------------------------------
     def write(self, kind, obj, attr, old, new):
@@ -199,6 +201,8 @@ class World:
         name = "bc" if kind == "bc" else obj.name
         if kind == "dev" and attr == "state" and name in self.idle_since:
             self.idle_since[name] = self.now() if new == "idle" else None
+            if new == "ejecting" and old == "waiting_for_target_ready":
+                self.ready_checked[name] = self.now_us()
         self.log.append(["W", name, attr, old, new])
 
     def snap(self):
@@ -357,7 +361,14 @@ class World:
                 "transit": [list(x[:2]) for x in self.transit]}
         if tgt != "playfield":
             inbound = [x for x in self.transit if x[1] == tgt]
-            room = self.devs[tgt]["cap"] - self.count(tgt) - len(inbound)
+            kicked = [x for x in self.kicked if x[1] == tgt]
+            room = self.devs[tgt]["cap"] - self.count(tgt) - len(inbound) - len(kicked)
+            # balls of OTHER sources that are on their way (or kicked) but which MPF has not yet registered as incoming
+            # at the target (a source registers its ball only when it has left)
+            checked = self.ready_checked.get(d, 0)      # when <d> passed wait_for_ready_to_receive
+            info["unregistered_other"] = \
+                len([x for x in inbound if x[0] not in (d, "playfield", tgt) and x[2] > checked]) + \
+                len([x for x in kicked if x[0] != d])
             own = [x for x in inbound if x[0] == d]
             info["room_without_own"] = room + len(own)
             miss = v["timeout"] + self.topo.get("miss_extra", 20000)
@@ -382,11 +393,15 @@ class World:
         if kind == "stuck":
             self.log.append(["S", "stuck", d, d, self.now_us()])
             return
+        if kind != "fallback":
+            self.kicked.append([d, tgt])
         self.at(f[1], self.ball_leaves, d, tgt, f)
         if kind == "double" and self.count(d) >= 2 and not v["trough"]:
             self.at(f[1] + 15, self.ball_leaves, d, tgt, ["ok", 0, f[2], -1])
 
     def ball_leaves(self, d, tgt, f):
+        if f[0] != "fallback" and [d, tgt] in self.kicked and f[1] != 0:
+            self.kicked.remove([d, tgt])
         if self.count(d) == 0:
             return
         # the ball that has been sitting in the device for the longest time is the one at the exit
@@ -576,7 +591,7 @@ class World:
                         quiet = 0
                 self.final_rest = self.is_rest()
                 g = self.rig.machine.game
-                self.final = {"snap": self.snap(), "truth": self.truth(),
+                self.final = {"snap": self.snap(), "truth": self.truth(), "spont_loss": dict(self.spont_loss),
                               "idle": {d: self.rig.machine.ball_devices[d].outgoing_balls_handler.is_idle
                                        for d in self.devs},
                               "game": None if not self.topo.get("game") else
@@ -968,6 +983,10 @@ def parse_log(log, devs):
 
 # ------------------------------------------------------------------------------------------------
 # direct oracle for C04 (independent of the model): the property's own predicate on the recorded run
+def room_after_others(info):
+    return info["room"] + info.get("unregistered_other", 0)
+
+
 def oracle_c04(case, out):
     fails = []
     devs = device_table(case["topo"])
@@ -1012,7 +1031,8 @@ def oracle_c04(case, out):
             if snap["playfield"][0] < 0:
                 unknown = total - snap["known"]
                 tdev = it[3]["dev"] if k == "T" else it[3] if k == "H" else None
-                behind = tdev is not None and any(snap[d][0] > tdev[d] and snap[d][3] == "idle" for d in devs)
+                behind = tdev is not None and any(
+                    snap[d][0] - (1 if snap[d][3] in ("ball_left", "failed_confirm") else 0) > tdev[d] for d in devs)
                 if snap["playfield"][0] == -1 and (snap["playfield"][2] > 0 or unknown > 0 or behind):
                     # a capture from the playfield is booked before the eject confirmation (or the new-ball
                     # detection) that the very same capture triggers
@@ -1042,7 +1062,9 @@ def oracle_c04(case, out):
             info = it[3]
             if info["room"] is not None and info["room"] <= 0:
                 t = info["target"]
-                believed = devs[t]["cap"] - snap[t][0] - snap[t][4]
+                # (a source that pulses in ball_left -- entrance counter -- has already registered its own ball)
+                own_reg = 1 if info["state"] == "ball_left" else 0
+                believed = devs[t]["cap"] - snap[t][0] - (snap[t][4] - own_reg)
                 own = any(x[:2] == [it[1], t] for x in info.get("transit", []))
                 gave_up = bool(info.get("own_given_up"))
                 if believed > 0 and own and info["room_without_own"] > 0 and gave_up:
@@ -1059,10 +1081,16 @@ def oracle_c04(case, out):
                     add("pulse-while-confirmed-ball-falls-back",
                         "coil of %s pulsed towards %s while the ball %s ejected is falling back into it; its eject "
                         "had been confirmed by another ball's activity, so MPF counts %s as empty" % (it[1], t, t, t))
+                elif believed > 0 and room_after_others(info) > 0:
+                    # two sources share the target: both passed wait_for_ready_to_receive before either ball was
+                    # registered as incoming ("TODO: block one spot in target device to prevent double eject")
+                    add("pulse-race-two-sources",
+                        "coil of %s pulsed towards %s whose last free place is taken by a ball another source has just "
+                        "fired (not yet registered as incoming at %s when %s checked for room)" % (it[1], t, t, it[1]))
                 else:
                     add("pulse-towards-full-device", "coil of %s pulsed while its target %s has no room "
                         "(MPF's own numbers: capacity %d, counted %d, incoming %d)" %
-                        (it[1], t, devs[t]["cap"], snap[t][0], snap[t][4]))
+                        (it[1], t, devs[t]["cap"], snap[t][0], snap[t][4] - own_reg))
             okstates = ("ejecting", "ball_left") if devs[it[1]]["kind"] == "entrance" else ("ejecting",)
             if info["state"] not in okstates:     # (an entrance counter assumes "left" 10 ms after the command,
                                                   #  the driver may delay the pulse up to eject_coil_max_wait_ms)
